@@ -6,6 +6,7 @@
 #include <shark/Algorithms/GradientDescent/BFGS.h>
 #include <shark/Algorithms/GradientDescent/LBFGS.h>
 #include <shark/Algorithms/GradientDescent/CG.h>
+#include <shark/Algorithms/GradientDescent/TrustRegionNewton.h>
 #include <shark/Algorithms/DirectSearch/CMA.h>
 #include <shark/ObjectiveFunctions/Benchmarks/Rosenbrock.h>
 #include <shark/ObjectiveFunctions/Benchmarks/Ellipsoid.h>
@@ -19,6 +20,7 @@
 #include <src/Algorithms/GradientDescent/CG.cpp>
 #include <src/Algorithms/GradientDescent/Rprop.cpp>
 #include <src/Algorithms/DirectSearch/CMA.cpp>
+#include <src/Algorithms/GradientDescent/TrustRegionNewton.cpp>
 #include <src/Models/RBFLayer.cpp>
 
 using namespace shark;
@@ -74,6 +76,7 @@ std::string c18::runOptimizer(std::string const& label, bool binary){
 	if(base == "BFGS") return continues<BFGS<> >(label, rosen, warm, binary);
 	if(base == "LBFGS") return continues<LBFGS<> >(label, rosen, warm, binary);
 	if(base == "CG") return continues<CG<> >(label, rosen, warm, binary);
+	if(base == "TrustRegionNewton") return continues<TrustRegionNewton>(label, rosen, warm, binary);
 	if(base == "CMA") return continues<CMA>(label, elli, warm, binary, true);
 	return "bad-op";
 }
